@@ -80,4 +80,14 @@ Fixpoint good (q prev : N) (s : str) : bool :=
    writer_backslash_doubling, regenerated from sql/dialect.rs). *)
 Definition prep_literal (bs : bool) (s : str) : str := dbl QUOTE (if bs then dbl BSLASH s else s).
 Definition emit_literal_string (bs : bool) (s : str) : str := emit_string (prep_literal bs s).   (* translate_literal, String / RawString *)
+(* PROPOSED, not what prqlc does (fixes/F6c-bigquery-string-literals.diff): for a dialect that has no '' (BigQuery)
+   every backslash is doubled and every quote is written backslash-quote, then the same sqlparser Display *)
+Fixpoint prep_literal_bq (s : str) : str :=
+  match s with
+  | [] => []
+  | c :: r => if c =? BSLASH then BSLASH :: BSLASH :: prep_literal_bq r
+              else if c =? QUOTE then BSLASH :: QUOTE :: prep_literal_bq r
+              else c :: prep_literal_bq r
+  end.
+Definition emit_literal_string_bq (s : str) : str := emit_string (prep_literal_bq s).
 Definition emit_ident_quoted (q : N) (s : str) : str := emit_quoted q (dbl q s).   (* translate_ident_part, quoted form *)
